@@ -285,8 +285,8 @@ def round_(number, num_digits=0):
         # see https://docs.python.org/2/library/functions.html#round
         # and https://gist.github.com/ejamesc/cedc886c5f36e2d075c5
 
-    else:
-        return round(number, num_digits)
+    else:  # builtin round() is half to even, Excel is half away from zero
+        return _round(number, num_digits, rounding=ROUND_HALF_UP)
 
 
 def _round(number, num_digits, rounding):
